@@ -11,6 +11,23 @@ import VaxisModel.Lemmas.EmuSafe3
 namespace VaxisModel.Lemmas.EmuRefine
 open VaxisModel.Model.Emu VaxisModel.Model.EmuAbs VaxisModel.Lemmas.Emu VaxisModel.Spec
 
+/-- the parameter as csi() hands it to the handler (`cp` of EmuRefineCursor) -/
+def cpE (n : Nat) : Int := clampParam (n : Int)
+
+theorem cpE_eq (n : Nat) : cpE n = if n > 65535 then 65535 else (n : Int) := by
+  unfold cpE clampParam maxParam
+  split <;> split <;> omega
+
+theorem cpE_ok (n : Nat) : POk (cpE n) := by
+  rw [cpE_eq]; unfold POk; split <;> omega
+
+end VaxisModel.Lemmas.EmuRefine
+
+/-! Auxiliary lemmas live in their own namespace (sibling files of the C06 refinement define
+    lemmas with similar names). -/
+namespace VaxisModel.Lemmas.EmuRefine.EraseAux
+open VaxisModel.Model.Emu VaxisModel.Model.EmuAbs VaxisModel.Lemmas.Emu VaxisModel.Spec
+
 /-! ### loop rules with an invariant that mentions the index -/
 
 theorem forUpGo_ix {σ : Type} (P : Int → σ → Prop) (body : Int → σ → M σ) :
@@ -451,16 +468,6 @@ theorem rowLen_of_getElem? {g : Grid} {rows cols : Nat} (h : GridOk g rows cols)
 
 /-! ### the reference side -/
 
-/-- the parameter as csi() hands it to the handler (`cp` of EmuRefineCursor) -/
-def cpE (n : Nat) : Int := clampParam (n : Int)
-
-theorem cpE_eq (n : Nat) : cpE n = if n > 65535 then 65535 else (n : Int) := by
-  unfold cpE clampParam maxParam
-  split <;> split <;> omega
-
-theorem cpE_ok (n : Nat) : POk (cpE n) := by
-  rw [cpE_eq]; unfold POk; split <;> omega
-
 theorem grid_setGrid (t : Term.T) (X : Term.TGrid) : (t.setGrid X).grid = X := by
   unfold Term.T.setGrid Term.T.grid; split <;> simp_all
 
@@ -507,5 +514,417 @@ theorem el_1 (e : Emu) : el Fixes.current e 1 =
 theorem el_2 (fx : Fixes) (e : Emu) : el fx e 2 =
     (eraseCols e.active e.cur.row 0 (e.width - 1) e.bg >>= fun g =>
       .ok (({ e with lastCol := false } : Emu).setActive g)) := rfl
+
+/-- The grid part of EL / ECH and of the cursor row of ED: the row `t.row` is replaced by
+    `healRow (blankRange …)` in the reference, the cells `lo..hi` of the cursor row are erased in
+    the emulator. -/
+theorem acc_modRow_blank {t : Term.T} {e : Emu} {rows cols : Nat} (s : Sim t e rows cols)
+    {g' : Grid} (hg' : GridOk g' rows cols) (lo hi : Nat) (P : Nat → Prop) [DecidablePred P]
+    (hP : ∀ j, P j ↔ lo ≤ j ∧ j < hi)
+    (hc : ∀ i j, cellAt g' i j =
+      if (i : Int) = e.cur.row ∧ P j then (cellAt e.active i j).map (·.erase e.bg) else cellAt e.active i j) :
+    Term.gridAccepts (t.grid.modify t.row fun row => Term.healRow (Term.blankRange row lo hi t.blank))
+      (g'.map absRow) = true := by
+  have hg := active_ok s.inv
+  have hrow := s.row
+  refine gridAccepts_of_rows hg hg' s.grid (by rw [List.length_modify]) ?_
+  intro i tr tr' row row' htr htr' hr hr' hacc
+  rw [List.getElem?_modify, htr] at htr'
+  simp only [Option.map_eq_map, Option.map_some, Option.some.injEq] at htr'
+  subst htr'
+  by_cases hti : t.row = i
+  · rw [if_pos hti]
+    apply healRow_accepts
+    unfold Term.blankRange
+    rw [blank_eq s]
+    have := row_blank (row' := row') e.bg P hacc (by rw [rowLen_of_getElem? hg hr, rowLen_of_getElem? hg' hr'])
+      (by
+        intro j
+        rw [← cellAt_of_row hr' j, ← cellAt_of_row hr j, hc i j]
+        apply ite_iff
+        constructor
+        · rintro ⟨_, b⟩; exact b
+        · intro b; exact ⟨by omega, b⟩)
+    have he : (fun j c => if P j then Term.TCell.blank (absCol e.bg) else c) =
+        (fun j c => if lo ≤ j ∧ j < hi then Term.TCell.blank (absCol e.bg) else c) := by
+      funext j c; exact ite_iff (hP j) _ _
+    rw [← he]; exact this
+  · rw [if_neg hti]
+    have := row_same hr hr' (fun j => by rw [hc i j, if_neg (fun hh => by omega)])
+    subst this
+    exact hacc
+
+/-! ### ECH -/
+
+/-- The loop of ech(): `m` cells from column `c`, stopping at the end of the line. -/
+theorem echLoop_spec {g : Grid} {rows cols : Nat} (h : GridOk g rows cols) (r c m : Int) (bg : Nat)
+    (hr0 : 0 ≤ r) (hr1 : r < rows) (hc0 : 0 ≤ c) (hc1 : c ≤ cols) (hm0 : 1 ≤ m)
+    (hm1 : m ≤ (hangLimit : Int)) :
+    ∃ g', forUpBrk 0 (m - 1) (fun i g =>
+        if c + i = (cols : Int) then .ok (g, false)
+        else do
+          let g' ← modCell g r (c + i) (·.erase bg)
+          .ok (g', true)) g = .ok g' ∧
+      GridOk g' rows cols ∧
+      ∀ i j, cellAt g' i j =
+        if (i : Int) = r ∧ c ≤ (j : Int) ∧ (j : Int) < c + m ∧ (j : Int) < cols
+        then (cellAt g i j).map (·.erase bg) else cellAt g i j := by
+  refine forUpBrk_ix
+    (fun k s => c + k ≤ cols ∧ GridOk s rows cols ∧ ∀ i j, cellAt s i j =
+      if (i : Int) = r ∧ c ≤ (j : Int) ∧ (j : Int) < c + k
+      then (cellAt g i j).map (·.erase bg) else cellAt g i j)
+    (fun s => GridOk s rows cols ∧ ∀ i j, cellAt s i j =
+      if (i : Int) = r ∧ c ≤ (j : Int) ∧ (j : Int) < c + m ∧ (j : Int) < cols
+      then (cellAt g i j).map (·.erase bg) else cellAt g i j)
+    _ 0 (m - 1) g (by omega) (by omega)
+    ⟨by omega, h, fun i j => by rw [if_neg (fun hh => by omega)]⟩ ?_ ?_
+  · intro k s hk0 hk1 ⟨hck, hs, hP⟩
+    by_cases hb : c + k = (cols : Int)
+    · refine ⟨(s, false), by simp only [hb, if_true], fun hf => by simp at hf, fun _ => ⟨hs, fun i j => ?_⟩⟩
+      show cellAt s i j = _
+      rw [hP i j]
+      apply ite_iff
+      constructor
+      · rintro ⟨a, b, c⟩; exact ⟨a, b, by omega, by omega⟩
+      · rintro ⟨a, b, c, d⟩; exact ⟨a, b, by omega⟩
+    · obtain ⟨s', e1, hs', hm⟩ := modCell_spec hs r (c + k) (·.erase bg) hr0 hr1 (by omega) (by omega)
+      refine ⟨(s', true), by simp only [hb, if_false, e1, bind, Except.bind],
+        fun _ => ⟨by show c + (k + 1) ≤ (cols : Int); omega, hs', fun i j => ?_⟩, fun hf => by simp at hf⟩
+      show cellAt s' i j = _
+      rw [hm i j, hP i j]
+      by_cases h1 : (i : Int) = r ∧ (j : Int) = c + k
+      · obtain ⟨hi, hj⟩ := h1
+        rw [if_pos ⟨hi, hj⟩, if_neg (fun hh => by omega), if_pos ⟨hi, by omega, by omega⟩]
+      · rw [if_neg h1]
+        apply ite_iff
+        constructor
+        · rintro ⟨a, b, c⟩; exact ⟨a, b, by omega⟩
+        · rintro ⟨a, b, c⟩; exact ⟨a, b, by omega⟩
+  · intro s ⟨hck, hs, hP⟩
+    refine ⟨hs, fun i j => ?_⟩
+    rw [hP i j]
+    apply ite_iff
+    constructor
+    · rintro ⟨a, b, c⟩; exact ⟨a, b, by omega, by omega⟩
+    · rintro ⟨a, b, c, d⟩; exact ⟨a, b, by omega⟩
+
+theorem ech_eq (e : Emu) (n : Int) : ech e n =
+    (forUpBrk 0 (dflt1 n - 1) (fun i g =>
+        if e.cur.col + i = e.width then .ok (g, false)
+        else do
+          let g' ← modCell g e.cur.row (e.cur.col + i) (·.erase e.bg)
+          .ok (g', true)) e.active >>= fun g =>
+      .ok (({ e with lastCol := false } : Emu).setActive g)) := rfl
+
+/-! ### ED -/
+
+theorem cellAt_none {g : Grid} {rows cols : Nat} (h : GridOk g rows cols) (i j : Nat) (hj : cols ≤ j) :
+    cellAt g i j = none := by
+  unfold cellAt
+  cases hr : g[i]? with
+  | none => rfl
+  | some row =>
+    simp only
+    rw [List.getElem?_eq_none_iff, rowLen_of_getElem? h hr]; exact hj
+
+theorem lt_rows_of_getElem? {g : Grid} {rows cols : Nat} (h : GridOk g rows cols) {i : Nat} {row : Row}
+    (hr : g[i]? = some row) : i < rows := by
+  rcases Nat.lt_or_ge i g.length with h1 | h1
+  · rw [← h.len]; exact h1
+  · rw [List.getElem?_eq_none_iff.mpr h1] at hr; cases hr
+
+theorem row_same_b {g g' : Grid} {rows cols : Nat} (hg : GridOk g rows cols) (hg' : GridOk g' rows cols)
+    {i : Nat} {row row' : Row} (hr : g[i]? = some row) (hr' : g'[i]? = some row')
+    (h : ∀ j, j < cols → cellAt g' i j = cellAt g i j) : row' = row := by
+  refine row_same hr hr' (fun j => ?_)
+  by_cases hj : j < cols
+  · exact h j hj
+  · rw [cellAt_none hg' i j (by omega), cellAt_none hg i j (by omega)]
+
+theorem row_blank_b {g g' : Grid} {rows cols : Nat} (hg : GridOk g rows cols) (hg' : GridOk g' rows cols)
+    {i : Nat} {tr : Term.TRow} {row row' : Row} (hr : g[i]? = some row) (hr' : g'[i]? = some row')
+    (bg : Nat) (P : Nat → Prop) [DecidablePred P]
+    (hacc : Term.rowAccepts tr (absRow row) = true)
+    (h : ∀ j, j < cols → cellAt g' i j = if P j then (cellAt g i j).map (·.erase bg) else cellAt g i j) :
+    Term.rowAccepts (tr.mapIdx fun j c => if P j then .blank (absCol bg) else c) (absRow row') = true := by
+  refine row_blank (row' := row') bg P hacc (by rw [rowLen_of_getElem? hg hr, rowLen_of_getElem? hg' hr']) ?_
+  intro j
+  rw [← cellAt_of_row hr' j, ← cellAt_of_row hr j]
+  by_cases hj : j < cols
+  · exact h j hj
+  · rw [cellAt_none hg' i j (by omega), cellAt_none hg i j (by omega)]
+    split <;> rfl
+
+/-- The grid part of ED 0 / ED 1: in the reference the cursor row gets `healRow (blankRange …)` and
+    the rows with `B` (below / above the cursor) become blank rows. -/
+theorem acc_ed {t : Term.T} {e : Emu} {rows cols : Nat} (s : Sim t e rows cols)
+    {g' : Grid} (hg' : GridOk g' rows cols) (lo hi : Nat) (P : Nat → Prop) [DecidablePred P]
+    (hP : ∀ j, P j ↔ lo ≤ j ∧ j < hi) (B : Nat → Prop) [DecidablePred B]
+    (hc : ∀ i j, i < rows → j < cols → cellAt g' i j =
+      if B i ∨ ((i : Int) = e.cur.row ∧ P j)
+      then (cellAt e.active i j).map (·.erase e.bg) else cellAt e.active i j) :
+    Term.gridAccepts
+      ((t.grid.modify t.row fun row => Term.healRow (Term.blankRange row lo hi t.blank)).mapIdx
+        fun i row => if B i then t.blankRow else row)
+      (g'.map absRow) = true := by
+  have hg := active_ok s.inv
+  have hrow := s.row
+  refine gridAccepts_of_rows hg hg' s.grid (by rw [List.length_mapIdx, List.length_modify]) ?_
+  intro i tr tr' row row' htr htr' hr hr' hacc
+  rw [List.getElem?_mapIdx, List.getElem?_modify, htr] at htr'
+  simp only [Option.map_eq_map, Option.map_some, Option.some.injEq] at htr'
+  subst htr'
+  have hir := lt_rows_of_getElem? hg hr
+  by_cases hBi : B i
+  · rw [if_pos hBi]
+    unfold Term.T.blankRow
+    rw [blank_eq s, s.tcols]
+    refine row_allblank (row := row) e.bg cols (rowLen_of_getElem? hg' hr') ?_
+    intro j hj
+    rw [← cellAt_of_row hr' j, ← cellAt_of_row hr j, hc i j hir hj, if_pos (Or.inl hBi)]
+  · rw [if_neg hBi]
+    by_cases hti : t.row = i
+    · rw [if_pos hti]
+      apply healRow_accepts
+      unfold Term.blankRange
+      rw [blank_eq s]
+      have := row_blank_b hg hg' hr hr' e.bg P hacc
+        (by
+          intro j hj
+          rw [hc i j hir hj]
+          apply ite_iff
+          constructor
+          · rintro (a | ⟨_, b⟩)
+            · exact absurd a hBi
+            · exact b
+          · intro b; exact Or.inr ⟨by omega, b⟩)
+      have he : (fun j c => if P j then Term.TCell.blank (absCol e.bg) else c) =
+          (fun j c => if lo ≤ j ∧ j < hi then Term.TCell.blank (absCol e.bg) else c) := by
+        funext j c; exact ite_iff (hP j) _ _
+      rw [← he]; exact this
+    · rw [if_neg hti]
+      have := row_same_b hg hg' hr hr' (fun j hj => by
+        rw [hc i j hir hj, if_neg (fun hh => by
+          rcases hh with a | ⟨a, _⟩
+          · exact hBi a
+          · omega)])
+      subst this
+      exact hacc
+
+theorem ed_0 (e : Emu) : ed e 0 =
+    (forUp e.cur.row (e.height - 1) (fun r g =>
+      forUp 0 (e.width - 1) (fun col g =>
+        if r = e.cur.row ∧ col < e.cur.col then .ok g
+        else modCell g r col (·.erase e.bg)) g) e.active >>= fun g =>
+      .ok (({ e with lastCol := false } : Emu).setActive g)) := rfl
+
+theorem ed_1 (e : Emu) : ed e 1 =
+    (forUp 0 e.cur.row (fun r g =>
+      forUpBrk 0 (e.width - 1) (fun col g =>
+        if r = e.cur.row ∧ col > e.cur.col then .ok (g, false)
+        else do
+          let g' ← modCell g r col (·.erase e.bg)
+          .ok (g', true)) g) e.active >>= fun g =>
+      .ok (({ e with lastCol := false } : Emu).setActive g)) := rfl
+
+theorem ed_2 (e : Emu) : ed e 2 =
+    (forUp 0 (e.height - 1) (fun r g =>
+      forUp 0 (e.width - 1) (fun col g => modCell g r col (·.erase e.bg)) g) e.active >>= fun g =>
+      .ok (({ e with lastCol := false } : Emu).setActive g)) := rfl
+
+end VaxisModel.Lemmas.EmuRefine.EraseAux
+
+/-! ### the refinement theorems -/
+
+namespace VaxisModel.Lemmas.EmuRefine
+open VaxisModel.Model.Emu VaxisModel.Model.EmuAbs VaxisModel.Lemmas.Emu VaxisModel.Spec
+open EraseAux
+
+theorem el_refines {t : Term.T} {e : Emu} {rows cols : Nat} (s : Sim t e rows cols) (n : Nat) :
+    ∃ e', el Fixes.current e (cpE n) = .ok e' ∧ Refines (Term.step t (.el n)) e' rows cols := by
+  have hsafe := el_safe s.inv s.dim (cpE n)
+  simp only [Term.step]
+  refine refines_of_safe hsafe ?_
+  intro hp
+  have hcol := col_lt_of_not_pw s hp
+  have htc := tcol_eq s hp
+  have hw : e.width = cols := width_eq s.inv s.dim.r1
+  have hg := active_ok s.inv
+  have := s.inv.rowLo; have := s.inv.rowHi; have := s.inv.colLo; have := s.dim.cmax
+  have htcols := s.tcols
+  have hcm : (cols : Int) ≤ hangLimit := by rw [hangLimit_val]; omega
+  by_cases h0 : n = 0
+  · subst h0
+    obtain ⟨g', e1, hg', hc⟩ := eraseCols_spec hg e.cur.row e.cur.col ((cols : Int) - 1) e.bg
+      (by omega) (by omega) (by omega) (by omega) hcm
+    refine ⟨_, by rw [show cpE 0 = 0 from rfl, el_0, hw, e1]; rfl, ?_⟩
+    simp only [if_true]
+    refine refines_one ?_
+    unfold Term.T.modRow
+    refine sim_eraseGrid s _ g' hg' ?_
+    exact acc_modRow_blank s hg' _ _ (fun j => e.cur.col ≤ (j : Int) ∧ (j : Int) ≤ (cols : Int) - 1)
+      (fun j => by omega) hc
+  · by_cases h1 : n = 1
+    · subst h1
+      obtain ⟨g', e1, hg', hc⟩ := eraseCols_spec hg e.cur.row 0 e.cur.col e.bg
+        (by omega) (by omega) (by omega) (by omega) hcm
+      refine ⟨_, by rw [show cpE 1 = 1 from rfl, el_1, hw, if_neg (by omega), e1]; rfl, ?_⟩
+      simp only [if_true, if_neg h0]
+      refine refines_one ?_
+      unfold Term.T.modRow
+      refine sim_eraseGrid s _ g' hg' ?_
+      exact acc_modRow_blank s hg' _ _ (fun j => (0 : Int) ≤ (j : Int) ∧ (j : Int) ≤ e.cur.col)
+        (fun j => by omega) hc
+    · by_cases h2 : n = 2
+      · subst h2
+        obtain ⟨g', e1, hg', hc⟩ := eraseCols_spec hg e.cur.row 0 ((cols : Int) - 1) e.bg
+          (by omega) (by omega) (by omega) (by omega) hcm
+        refine ⟨_, by rw [show cpE 2 = 2 from rfl, el_2, hw, e1]; rfl, ?_⟩
+        simp only [if_true, if_neg h0, if_neg h1]
+        refine refines_one ?_
+        unfold Term.T.modRow
+        refine sim_eraseGrid s _ g' hg' ?_
+        refine gridAccepts_of_rows hg hg' s.grid (by rw [List.length_modify]) ?_
+        intro i tr tr' row row' htr htr' hr hr' hacc
+        rw [List.getElem?_modify, htr] at htr'
+        simp only [Option.map_eq_map, Option.map_some, Option.some.injEq] at htr'
+        subst htr'
+        have hrow := s.row
+        by_cases hi : t.row = i
+        · rw [if_pos hi]
+          apply healRow_accepts
+          unfold Term.T.blankRow
+          rw [blank_eq s, htcols]
+          refine row_allblank (row := row) e.bg cols (rowLen_of_getElem? hg' hr') ?_
+          intro j hj
+          rw [← cellAt_of_row hr' j, ← cellAt_of_row hr j, hc i j, if_pos (by omega)]
+        · rw [if_neg hi]
+          have := row_same hr hr' (fun j => by rw [hc i j, if_neg (fun hh => by omega)])
+          subst this
+          exact hacc
+      · obtain ⟨e', he', _⟩ := hsafe
+        refine ⟨e', he', ?_⟩
+        simp only [if_neg h0, if_neg h1, if_neg h2]
+        trivial
+
+theorem ech_refines {t : Term.T} {e : Emu} {rows cols : Nat} (s : Sim t e rows cols) (n : Nat) :
+    ∃ e', ech e (cpE n) = .ok e' ∧ Refines (Term.step t (.ech n)) e' rows cols := by
+  have hsafe := ech_safe s.inv s.dim (cpE_ok n)
+  simp only [Term.step]
+  refine refines_of_safe hsafe ?_
+  intro hp
+  have hcol := col_lt_of_not_pw s hp
+  have htc := tcol_eq s hp
+  have hw : e.width = cols := width_eq s.inv s.dim.r1
+  have hg := active_ok s.inv
+  have := s.inv.rowLo; have := s.inv.rowHi; have := s.inv.colLo; have := s.dim.cmax
+  have htcols := s.tcols
+  have hd := dflt1_ok (cpE_ok n)
+  obtain ⟨g', e1, hg', hc⟩ := echLoop_spec hg e.cur.row e.cur.col (dflt1 (cpE n)) e.bg
+    (by omega) (by omega) (by omega) (by omega) (by omega) (by rw [hangLimit_val]; omega)
+  refine ⟨_, by rw [ech_eq, hw, e1]; rfl, ?_⟩
+  refine refines_one ?_
+  unfold Term.T.modRow
+  refine sim_eraseGrid s _ g' hg' ?_
+  refine acc_modRow_blank s hg' _ _
+    (fun j => e.cur.col ≤ (j : Int) ∧ (j : Int) < e.cur.col + dflt1 (cpE n) ∧ (j : Int) < (cols : Int))
+    (fun j => ?_) hc
+  have hcp := cpE_eq n
+  unfold Term.d1 dflt1
+  split <;> split <;> split at hcp <;> omega
+
+theorem ed_refines {t : Term.T} {e : Emu} {rows cols : Nat} (s : Sim t e rows cols) (n : Nat) :
+    ∃ e', ed e (cpE n) = .ok e' ∧ Refines (Term.step t (.ed n)) e' rows cols := by
+  have hsafe := ed_safe s.inv s.dim (cpE n)
+  simp only [Term.step]
+  refine refines_of_safe hsafe ?_
+  intro hp
+  have hcol := col_lt_of_not_pw s hp
+  have htc := tcol_eq s hp
+  have hw : e.width = cols := width_eq s.inv s.dim.r1
+  have hh : e.height = rows := height_eq s.inv
+  have hg := active_ok s.inv
+  have := s.inv.rowLo; have := s.inv.rowHi; have := s.inv.colLo; have := s.dim.cmax; have := s.dim.rmax
+  have htcols := s.tcols
+  have htrow := s.row
+  have hcm : (cols : Int) ≤ hangLimit := by rw [hangLimit_val]; omega
+  by_cases h0 : n = 0
+  · subst h0
+    obtain ⟨g', e1, hg', hc⟩ := rowsLoop_spec hg e.cur.row ((rows : Int) - 1) e.bg
+      (fun r g => forUp 0 ((cols : Int) - 1) (fun col g =>
+        if r = e.cur.row ∧ col < e.cur.col then .ok g
+        else modCell g r col (·.erase e.bg)) g)
+      (fun r j => (0 : Int) ≤ (j : Int) ∧ (j : Int) ≤ (cols : Int) - 1 ∧ ¬ (r = e.cur.row ∧ (j : Int) < e.cur.col))
+      (by omega) (by rw [hangLimit_val]; omega)
+      (fun r s' hr0 hr1 hs' => colLoop_spec hs' r 0 ((cols : Int) - 1) e.bg
+        (fun col => r = e.cur.row ∧ col < e.cur.col) (by omega) (by omega) (by omega) (by omega) hcm)
+    refine ⟨_, by rw [show cpE 0 = 0 from rfl, ed_0, hw, hh, e1]; rfl, ?_⟩
+    simp only [if_true]
+    refine refines_one ?_
+    unfold Term.T.modRow
+    rw [grid_setGrid, setGrid_setGrid]
+    refine sim_eraseGrid s _ g' hg' ?_
+    refine acc_ed s hg' _ _ (fun j => e.cur.col ≤ (j : Int) ∧ j < cols) (fun j => by omega)
+      (fun i => i > t.row) ?_
+    intro i j hi hj
+    rw [hc i j]
+    apply ite_iff
+    omega
+  · by_cases h1 : n = 1
+    · subst h1
+      obtain ⟨g', e1, hg', hc⟩ := rowsLoop_spec hg 0 e.cur.row e.bg
+        (fun r g => forUpBrk 0 ((cols : Int) - 1) (fun col g =>
+          if r = e.cur.row ∧ col > e.cur.col then .ok (g, false)
+          else do
+            let g' ← modCell g r col (·.erase e.bg)
+            .ok (g', true)) g)
+        (fun r j => (0 : Int) ≤ (j : Int) ∧ (j : Int) ≤ (cols : Int) - 1 ∧ ¬ (r = e.cur.row ∧ (j : Int) > e.cur.col))
+        (by omega) (by rw [hangLimit_val]; omega)
+        (fun r s' hr0 hr1 hs' => brkLoop_spec hs' r 0 ((cols : Int) - 1) e.bg
+          (fun col => r = e.cur.row ∧ col > e.cur.col) (fun a b ha hab => ⟨ha.1, by omega⟩)
+          (by omega) (by omega) (by omega) (by omega) (by omega) hcm)
+      refine ⟨_, by rw [show cpE 1 = 1 from rfl, ed_1, hw, e1]; rfl, ?_⟩
+      simp only [if_true, if_neg h0]
+      refine refines_one ?_
+      unfold Term.T.modRow
+      rw [grid_setGrid, setGrid_setGrid]
+      refine sim_eraseGrid s _ g' hg' ?_
+      refine acc_ed s hg' _ _ (fun j => (j : Int) ≤ e.cur.col) (fun j => by omega) (fun i => i < t.row) ?_
+      intro i j hi hj
+      rw [hc i j]
+      apply ite_iff
+      omega
+    · by_cases h2 : n = 2
+      · subst h2
+        obtain ⟨g', e1, hg', hc⟩ := rowsLoop_spec hg 0 ((rows : Int) - 1) e.bg
+          (fun r g => forUp 0 ((cols : Int) - 1) (fun col g => modCell g r col (·.erase e.bg)) g)
+          (fun _ j => (0 : Int) ≤ (j : Int) ∧ (j : Int) ≤ (cols : Int) - 1)
+          (by omega) (by rw [hangLimit_val]; omega)
+          (fun r s' hr0 hr1 hs' => eraseCols_spec hs' r 0 ((cols : Int) - 1) e.bg
+            (by omega) (by omega) (by omega) (by omega) hcm)
+        refine ⟨_, by rw [show cpE 2 = 2 from rfl, ed_2, hw, hh, e1]; rfl, ?_⟩
+        simp only [if_true, if_neg h0, if_neg h1]
+        refine refines_one ?_
+        refine sim_eraseGrid s _ g' hg' ?_
+        have hgl : t.grid.length = rows := by
+          have := (gridAccepts_iff _ _).mp s.grid
+          rw [this.1, List.length_map, hg.len]
+        refine gridAccepts_of_rows hg hg' s.grid (by rw [List.length_replicate, hgl, s.trows]) ?_
+        intro i tr tr' row row' htr htr' hr hr' hacc
+        rw [List.getElem?_replicate] at htr'
+        split at htr'
+        · simp only [Option.some.injEq] at htr'
+          subst htr'
+          have hi := lt_rows_of_getElem? hg hr
+          unfold Term.T.blankRow
+          rw [blank_eq s, htcols]
+          refine row_allblank (row := row) e.bg cols (rowLen_of_getElem? hg' hr') ?_
+          intro j hj
+          rw [← cellAt_of_row hr' j, ← cellAt_of_row hr j, hc i j, if_pos (by omega)]
+        · cases htr'
+      · obtain ⟨e', he', _⟩ := hsafe
+        refine ⟨e', he', ?_⟩
+        simp only [if_neg h0, if_neg h1, if_neg h2]
+        trivial
 
 end VaxisModel.Lemmas.EmuRefine
